@@ -1,13 +1,189 @@
-import Uflow.Model.Endpoint
+import Uflow.Lemmas.EndpointServerExample
 
-/-! # C17 (theorems on the endpoint model are being added) -/
+/-!
+# C17 — the server enforces `max_total_connections` / `max_active_connections`
+
+Model: `Uflow/Model/Endpoint.lean`. Runs (`SRun`, `Reachable`, `SOp`, `Server.apply`) are defined in
+`Uflow/Lemmas/EndpointServerRun.lean`, the global invariant `Server.WF` in
+`Uflow/Lemmas/EndpointServerBasic.lean`, the outcomes of `handleSyn` (`Server.refuse`,
+`Server.accept`, `Server.full`) in `Uflow/Lemmas/EndpointServerSyn.lean`. All theorems hold for every
+half-connection behaviour `hc`.
+-/
 
 namespace Uflow.Props.C17
 
-open Uflow.Endpoint
+open Uflow.Endpoint Uflow.Codec Uflow.Gen
+
+variable {H : Type}
 
 /-- `u32` (the model of `.min(u32::MAX as usize) as u32`) fits 32 bits. -/
 theorem C17_u32_lt (x : Nat) : u32 x < 2^32 := by
   unfold u32; omega
+
+/-- **C17_inv.** In every server state reachable from `Server.init cfg ..` by any sequence of
+`step` / `flush` / `drop` / `disconnect` / `send` calls (any arrivals, any times, any half-connection
+behaviour) the configuration is unchanged, the number of pending-or-active entries is at most
+`max_active_connections` and the size of the address map at most `max_total_connections`.
+(The limits need not even be `≥ 1`.) The state is also globally well-formed (`Server.WF`). -/
+theorem C17_inv (hc : HC H) (cfg : SrvConfig) (s : Server H) (hr : Reachable hc cfg s) :
+    s.cfg = cfg ∧ s.activeCount ≤ cfg.maxActiveConnections ∧ s.clients.length ≤ cfg.maxTotalConnections ∧ s.WF := by
+  obtain ⟨rx, tx, ev, hr⟩ := hr
+  have := SRun.inv hc cfg
+    (fun s => s.cfg = cfg ∧ s.activeCount ≤ cfg.maxActiveConnections ∧ s.clients.length ≤ cfg.maxTotalConnections)
+    (fun now rng => ⟨rfl, Nat.zero_le _, Nat.zero_le _⟩)
+    (fun s s' _ hp hq => ⟨hq.cfg.trans hp.1, Nat.le_trans hq.cnt hp.2.1, Nat.le_trans hq.len hp.2.2⟩)
+    (fun s addr n r a nowMs _ hp _ hfull => by
+      obtain ⟨h1, h2, h3⟩ := s.accept_counts addr n r a nowMs
+      unfold Server.full at hfull
+      rw [hp.1] at hfull
+      rw [h1, h2, h3]
+      exact ⟨hp.1, by omega, by omega⟩)
+    (fun s addr c ln rn rate alloc reply nowMs nowNs hw hp hf hst => by
+      obtain ⟨h1, h2⟩ := Server.activate_counts hc hw (Server.find_some hf).1 hst nowMs nowNs
+      rw [h1, h2]
+      exact ⟨(Server.activate_cfg ..).trans hp.1, hp.2.1, hp.2.2⟩)
+    (fun s _ hp => hp) hr
+  exact ⟨this.2.1, this.2.2.1, this.2.2.2, this.1⟩
+
+/-- `handleSyn` adds an entry only when both counts are strictly below their limits; the entry is
+pending, appended for the sender's address, and both counts grow by exactly one. -/
+theorem C17_syn_adds_only_below (s : Server H) (addr v n r p a nowMs : Nat)
+    (hch : (s.handleSyn addr v n r p a nowMs).1.clients ≠ s.clients) :
+    s.clients.length < s.cfg.maxTotalConnections ∧ s.activeCount < s.cfg.maxActiveConnections ∧
+    s.find addr = none ∧
+    (s.handleSyn addr v n r p a nowMs).1.clients = s.clients ++ [s.newEntry addr n r a] ∧
+    (s.newEntry addr n r a).state.isPending = true ∧
+    (s.handleSyn addr v n r p a nowMs).1.clients.length = s.clients.length + 1 ∧
+    (s.handleSyn addr v n r p a nowMs).1.activeCount = s.activeCount + 1 := by
+  rcases s.handleSyn_cases addr v n r p a nowMs with ⟨_, he⟩ | ⟨_, e, ev, he⟩ | ⟨hf, _, hfull, _, _, he⟩
+  · rw [he] at hch; exact absurd rfl hch
+  · rw [he] at hch; exact absurd rfl hch
+  · rw [he]
+    obtain ⟨h1, h2, _⟩ := s.accept_counts addr n r a nowMs
+    unfold Server.full at hfull
+    exact ⟨by omega, by omega, hf, rfl, rfl, h1, h2⟩
+
+/-- No frame other than an accepted SYN adds an entry or makes a non-counted entry counted:
+for every frame from every address, either neither count grows (and every pending entry afterwards
+is an unmodified pending entry from before), or the frame is a SYN from an unknown address accepted
+while the server was not full. -/
+theorem C17_frame_counts (hc : HC H) (s s' : Server H) (hw : s.WF) (addr : Nat) (f : Frame) (nowMs nowNs : Nat)
+    (sent : List (Nat × List Nat)) (hr : s.handleFrame hc addr f nowMs nowNs = .ok (s', sent)) :
+    (s'.clients.length ≤ s.clients.length ∧ s'.activeCount ≤ s.activeCount ∧
+      ∀ c ∈ s'.clients, c.state.isPending = true → c ∈ s.clients)
+    ∨ (∃ v n r p a, f = .syn v n r p a ∧ s.find addr = none ∧ ¬ s.full ∧ s' = s.accept addr n r a nowMs) := by
+  obtain ⟨_, hq | ⟨v, n, r, p, a, h1, h2, h3, h4, _⟩ | ⟨c, na, rn, rate, alloc, reply, _, hf, hst, hs', _⟩⟩ :=
+    Server.handleFrame_wq hc hw addr f nowMs nowNs hr
+  · exact Or.inl ⟨hq.len, hq.cnt, hq.pendSub⟩
+  · exact Or.inr ⟨v, n, r, p, a, h1, h2, h3, h4⟩
+  · obtain ⟨h1, h2⟩ := Server.activate_counts hc hw (Server.find_some hf).1 hst nowMs nowNs
+    refine Or.inl ⟨by rw [hs', h1]; exact Nat.le_refl _, by rw [hs', h2]; exact Nat.le_refl _, ?_⟩
+    rw [hs']
+    exact Server.activate_pendSub hc hw (Server.find_some hf).1 na rn rate alloc nowMs nowNs
+
+/-- The handshake ACK turns the pending entry active: neither count changes. -/
+theorem C17_hsAck_counts (hc : HC H) (s : Server H) (hw : s.WF) (addr na nowMs nowNs : Nat) :
+    (s.handleHsAck hc addr na nowMs nowNs).clients.length = s.clients.length ∧
+    (s.handleHsAck hc addr na nowMs nowNs).activeCount = s.activeCount :=
+  Server.handleHsAck_counts hc hw addr na nowMs nowNs
+
+/-- All the other phases of `step` and the API calls never increase either count. -/
+theorem C17_other_ops_counts (hc : HC H) (s : Server H) (hw : s.WF) :
+    (∀ s' sent, s.flushActive hc = .ok (s', sent) → s'.clients.length ≤ s.clients.length ∧ s'.activeCount ≤ s.activeCount) ∧
+    (∀ fuel nowMs sent, (Server.runTimers fuel s nowMs sent).1.clients.length ≤ s.clients.length ∧
+        (Server.runTimers fuel s nowMs sent).1.activeCount ≤ s.activeCount) ∧
+    (∀ nowMs s', s.activeTimeouts hc nowMs = .ok s' → s'.clients.length ≤ s.clients.length ∧ s'.activeCount ≤ s.activeCount) ∧
+    (s.retain.clients.length ≤ s.clients.length ∧ s.retain.activeCount ≤ s.activeCount) ∧
+    (∀ nowMs nowNs s' sent, s.stepActive hc nowMs nowNs = .ok (s', sent) →
+        s'.clients.length ≤ s.clients.length ∧ s'.activeCount ≤ s.activeCount) ∧
+    (∀ addr, (s.drop addr).clients.length ≤ s.clients.length ∧ (s.drop addr).activeCount ≤ s.activeCount) ∧
+    (∀ addr m, (s.disconnect addr m).clients.length ≤ s.clients.length ∧ (s.disconnect addr m).activeCount ≤ s.activeCount) ∧
+    (∀ addr d ch m, (s.send hc addr d ch m).clients.length ≤ s.clients.length ∧ (s.send hc addr d ch m).activeCount ≤ s.activeCount) := by
+  refine ⟨?_, ?_, ?_, ?_, ?_, ?_, ?_, ?_⟩
+  · intro s' sent h; have := (Server.flushActive_wq hc hw h).2; exact ⟨this.len, this.cnt⟩
+  · intro fuel nowMs sent; have := (Server.runTimers_wq fuel hw nowMs sent).2; exact ⟨this.len, this.cnt⟩
+  · intro nowMs s' h; have := (Server.activeTimeouts_wq hc hw nowMs h).2; exact ⟨this.len, this.cnt⟩
+  · have := (Server.retain_wq hw).2; exact ⟨this.len, this.cnt⟩
+  · intro nowMs nowNs s' sent h; have := (Server.stepActive_wq hc hw nowMs nowNs h).2; exact ⟨this.len, this.cnt⟩
+  · intro addr; have := (Server.drop_wq hw addr).2; exact ⟨this.len, this.cnt⟩
+  · intro addr m; have := (Server.disconnect_wq hw addr m).2; exact ⟨this.len, this.cnt⟩
+  · intro addr d ch m; have := (Server.send_wq hc hw addr d ch m).2; exact ⟨this.len, this.cnt⟩
+
+/-- **C17_refuse.** A SYN with the right version from an address without an entry, arriving when the
+server is full (`clients.len() ≥ max_total ∨ active_count ≥ max_active`), leaves the map (and every
+other part of the state except possibly one queued `Error(ServerFull)` event) unchanged and sends
+exactly one `hsError nonce serverFull` frame, to that address. -/
+theorem C17_refuse (s : Server H) (addr n r p a nowMs : Nat) (hf : s.find addr = none)
+    (hfull : s.clients.length ≥ s.cfg.maxTotalConnections ∨ s.activeCount ≥ s.cfg.maxActiveConnections) :
+    (s.handleSyn addr PROTOCOL_VERSION n r p a nowMs).2 = [(addr, encode (.hsError n .serverFull))] ∧
+    (s.handleSyn addr PROTOCOL_VERSION n r p a nowMs).1 = s.refuse addr .serverFull ∧
+    (s.refuse addr .serverFull).clients = s.clients ∧ (s.refuse addr .serverFull).detached = s.detached ∧
+    (s.refuse addr .serverFull).active = s.active ∧ (s.refuse addr .serverFull).timers = s.timers ∧
+    (s.refuse addr .serverFull).nextCid = s.nextCid ∧
+    (s.refuse addr .serverFull).eventsOut =
+      (if s.cfg.enableHandshakeErrors then s.eventsOut ++ [SEvent.error addr .serverFull] else s.eventsOut) := by
+  rw [Server.handleSyn_full hf n r p a nowMs hfull]
+  exact ⟨rfl, rfl, rfl, rfl, rfl, rfl, rfl, rfl⟩
+
+/-- The same at the level of `handleFrame`. -/
+theorem C17_refuse_frame (hc : HC H) (s : Server H) (addr n r p a nowMs nowNs : Nat) (hf : s.find addr = none)
+    (hfull : s.clients.length ≥ s.cfg.maxTotalConnections ∨ s.activeCount ≥ s.cfg.maxActiveConnections) :
+    s.handleFrame hc addr (.syn PROTOCOL_VERSION n r p a) nowMs nowNs =
+      .ok (s.refuse addr .serverFull, [(addr, encode (.hsError n .serverFull))]) := by
+  simp only [Server.handleFrame]
+  rw [Server.handleSyn_full hf n r p a nowMs hfull]
+  rfl
+
+/-- **C17_release.** `finish` removes the entry of the object's address from the map: neither count
+increases, the map gets strictly shorter when the object was in it, and the address is free again. -/
+theorem C17_release (s : Server H) (c : RClient H) :
+    (s.finish c).clients.length ≤ s.clients.length ∧ (s.finish c).activeCount ≤ s.activeCount ∧
+    (c ∈ s.clients → (s.finish c).clients.length < s.clients.length) ∧
+    (s.finish c).find c.address = none :=
+  ⟨(s.finish_quiet c).len, (s.finish_quiet c).cnt, s.finish_length_lt c, s.finish_find c⟩
+
+/-- `drop` of an address with an entry releases it. -/
+theorem C17_release_drop (s : Server H) (addr : Nat) (c : RClient H) (hf : s.find addr = some c) :
+    (s.drop addr).clients.length < s.clients.length ∧ (s.drop addr).activeCount ≤ s.activeCount ∧
+    (s.drop addr).find addr = none := by
+  obtain ⟨hm, ha⟩ := Server.find_some hf
+  unfold Server.drop
+  rw [hf]
+  subst ha
+  exact ⟨s.finish_length_lt c hm, (s.finish_quiet c).cnt, s.finish_find c⟩
+
+/-! ### non-vacuity -/
+
+/-- a dummy half connection over `Unit` -/
+def hc0 : HC Unit :=
+  { new := fun _ _ => (), send := fun _ _ _ _ => (), dispatch := fun _ _ => .ok (), step := fun _ _ => .ok (),
+    flush := fun _ r => .ok ((), r, []), receive := fun _ => .ok ((), []), isSendPending := fun _ => false,
+    sendBufferSize := fun _ => 0 }
+
+def ep0 : EpConfig :=
+  { maxSendRate := 1000000, maxReceiveRate := 1000000, maxPacketSize := 1000, maxReceiveAlloc := 100000,
+    keepalive := true, keepaliveIntervalMs := 1000, activeTimeoutMs := 15000 }
+
+def cfg0 : SrvConfig := { maxTotalConnections := 1, maxActiveConnections := 1, enableHandshakeErrors := true, ep := ep0 }
+
+/-- a full server: one closed entry, limit one -/
+def sFull : Server Unit :=
+  { (Server.init cfg0 0 ⟨[], 1⟩ : Server Unit) with clients := [{ cid := 0, address := 7, state := .closed }], nextCid := 1 }
+
+example : Reachable hc0 cfg0 (Server.init cfg0 0 ⟨[], 1⟩ : Server Unit) := ⟨[], [], [], SRun.init 0 ⟨[], 1⟩⟩
+
+example : sFull.find 9 = none ∧
+    (sFull.clients.length ≥ sFull.cfg.maxTotalConnections ∨ sFull.activeCount ≥ sFull.cfg.maxActiveConnections) := by
+  decide
+
+example : sFull.find 7 = some { cid := 0, address := 7, state := .closed } := rfl
+
+/-- a concrete run (kernel-evaluated, `Uflow/Lemmas/EndpointServerExample.lean`) reaching a state
+with one active connection -/
+example : ∃ s : Server Unit, Reachable Ex.hc0 Ex.cfg0 s ∧ s.activeCount = 1 := by
+  obtain ⟨s1, s2, sent1, sent2, h1, h2, _, _, _, _, h7, _⟩ := Ex.run
+  have r1 := SRun.op Ex.op1 (SRun.init (hc := Ex.hc0) (cfg := Ex.cfg0) 0 ⟨[77], 1⟩) h1
+  have r2 := SRun.op Ex.op2 r1 h2
+  exact ⟨s2, ⟨_, _, _, r2⟩, h7⟩
 
 end Uflow.Props.C17
